@@ -210,11 +210,12 @@ class MState:
 
     __slots__ = (
         "cols", "visible", "rows", "group", "order_keys", "seq_defined", "origin",
-        "tname", "n_new", "polars_only_order",
+        "tname", "n_new", "types",
     )
 
     def __init__(self):
         self.cols: dict[str, str] = {}  # cid -> current/last name (all columns in scope)
+        self.types: dict[str, str] = {}  # cid -> static type family
         self.visible: list[str] = []  # cids in export order
         self.rows: list[dict] = []  # cid -> value, in the deterministic (polars) order
         self.group: list[str] = []
@@ -230,6 +231,7 @@ class MState:
     def copy(self) -> "MState":
         s = MState()
         s.cols = dict(self.cols)
+        s.types = dict(self.types)
         s.visible = list(self.visible)
         s.rows = [dict(r) for r in self.rows]
         s.group = list(self.group)
@@ -293,9 +295,10 @@ def source_state(world, name) -> MState:
     s = MState()
     s.tname = name
     s.origin = frozenset([name])
-    for cn, _ in t["cols"]:
+    for cn, ty in t["cols"]:
         cid = f"{name}.{cn}"
         s.cols[cid] = cn
+        s.types[cid] = family(ty)
         s.visible.append(cid)
     cids = list(s.visible)
     for row in W.table_rows(t):
@@ -783,6 +786,201 @@ def _ev_window(t, rows, env):
 
 
 # --------------------------------------------------------------------------------------
+# static types (families): int float bool str date datetime null
+
+NUMF = ("int", "float")
+
+
+def family(tyname: str) -> str:
+    """world column type name -> model family"""
+    if tyname.startswith(("int", "uint")):
+        return "int"
+    if tyname.startswith("float"):
+        return "float"
+    return tyname
+
+
+def lit_family(v) -> str:
+    v = W.dec(v)
+    if v is None:
+        return "null"
+    if isinstance(v, bool):
+        return "bool"
+    if isinstance(v, int):
+        return "int"
+    if isinstance(v, float):
+        return "float"
+    if isinstance(v, str):
+        return "str"
+    if isinstance(v, _dt.datetime):
+        return "datetime"
+    if isinstance(v, _dt.date):
+        return "date"
+    raise ValueError(v)
+
+
+def _terr(msg):
+    raise Reject("DataTypeError", msg)
+
+
+def lca(ts, what="values"):
+    ts = [t for t in ts if t != "null"]
+    if not ts:
+        return "null"
+    if all(t == ts[0] for t in ts):
+        return ts[0]
+    if all(t in NUMF for t in ts):
+        return "float"
+    _terr(f"incompatible types of {what}: {ts}")
+
+
+def _conv(t, target):
+    """implicit conversion allowed?"""
+    return t == target or t == "null" or (t == "int" and target == "float")
+
+
+def typeof(t, env) -> str:
+    h = t[0]
+    if h == "lit":
+        if len(t) > 2:
+            return family(t[2])
+        return lit_family(t[1])
+    if h == "col":
+        cid = env.resolve(t)
+        st = env.state
+        if cid in st.types:
+            return st.types[cid]
+        return env.right.types[cid]
+    ch = children(t)
+    if h in ("desc", "asc", "nulls_first", "nulls_last"):
+        raise Reject("TypeError", "ordering marker outside arrange")
+    if h in AGGS or h in WINDOWS:
+        args = [a for a in t[1:] if isinstance(a, list)]
+        ck = next((a for a in t[1:] if isinstance(a, dict)), {})
+        for f in ck.get("filter", []):
+            if not _conv(typeof(f, env), "bool"):
+                _terr("filter= must be boolean")
+        for o in ck.get("arrange", []):
+            typeof(_order_spec(o)[0], env)
+        for c in ck.get("partition_by", []):
+            typeof(c, env)
+        at = typeof(args[0], env) if args else None
+        if h in ("count_star", "row_number", "rank", "dense_rank", "count"):
+            return "int"
+        if h == "sum" or h == "cum_sum":
+            if at == "bool" and h == "sum":
+                return "int"
+            if at in NUMF or at == "null":
+                return at if at != "null" else "int"
+            _terr(f"{h} of {at}")
+        if h == "mean":
+            if at in NUMF or at == "null":
+                return "float"
+            _terr(f"mean of {at}")
+        if h in ("min", "max"):
+            return at
+        if h in ("any", "all"):
+            if not _conv(at, "bool"):
+                _terr(f"{h} of {at}")
+            return "bool"
+        if h == "shift":
+            if len(t) > 3 and t[3] is not None and not _conv(typeof(t[3], env), at):
+                _terr("shift fill value type")
+            return at
+    ts = [typeof(c, env) for c in ch]
+    if h in ("add", "sub", "mul"):
+        a, b = ts
+        if a in NUMF + ("null",) and b in NUMF + ("null",):
+            if a == b == "null":
+                raise Disabled("no unique overload for untyped nulls")
+            return lca([a, b])
+        if h == "add" and _conv(a, "str") and _conv(b, "str"):
+            return "str"
+        if h == "add" and _conv(a, "bool") and _conv(b, "bool"):
+            return "int"
+        _terr(f"{h}({a},{b})")
+    if h == "truediv" or h == "pow":
+        if all(x in NUMF + ("null",) for x in ts):
+            return "float"
+        _terr(f"{h}{ts}")
+    if h in ("floordiv", "mod"):
+        if all(_conv(x, "int") for x in ts):
+            return "int"
+        _terr(f"{h}{ts}")
+    if h in ("eq", "ne", "lt", "le", "gt", "ge"):
+        lca(ts, "comparison operands")
+        return "bool"
+    if h in ("and", "or", "xor", "invert", "hany", "hall"):
+        if all(_conv(x, "bool") for x in ts):
+            return "bool"
+        _terr(f"{h}{ts}")
+    if h in ("neg", "pos", "abs"):
+        if ts[0] in NUMF:
+            return ts[0]
+        if ts[0] == "null":
+            raise Disabled("no unique overload for an untyped null")
+        _terr(f"{h}({ts[0]})")
+    if h in ("is_null", "is_not_null"):
+        return "bool"
+    if h in ("fill_null", "coalesce", "hmax", "hmin"):
+        return lca(ts)
+    if h == "is_in":
+        lca(ts)
+        return "bool"
+    if h == "hsum":
+        r = lca(ts)
+        if r not in NUMF + ("str", "null"):
+            _terr(f"sum{ts}")
+        return r
+    if h == "round":
+        if ts[0] in NUMF:
+            return ts[0]
+        _terr(f"round({ts[0]})")
+    if h in ("floor", "ceil", "exp", "log", "sqrt"):
+        if _conv(ts[0], "float"):
+            return "float"
+        _terr(f"{h}({ts[0]})")
+    if h == "clip":
+        lca(ts)
+        return ts[0]
+    if h == "case":
+        conds = [typeof(c, env) for c, _ in t[1]]
+        for c in conds:
+            if c != "bool":
+                _terr("when condition must be boolean")
+        vals = [typeof(v, env) for _, v in t[1]]
+        if len(t) > 2 and t[2] is not None:
+            vals.append(typeof(t[2], env))
+        return lca(vals, "case branches")
+    if h == "map":
+        xt = typeof(t[1], env)
+        vals = []
+        for key, val in t[2]:
+            keys = key[1:] if (isinstance(key, list) and key and key[0] == "tuple") else [key]
+            lca([xt] + [typeof(k_, env) for k_ in keys])
+            vals.append(typeof(val, env))
+        vals.append(typeof(t[3], env) if len(t) > 3 and t[3] is not None else xt)
+        return lca(vals, "map values")
+    if h == "cast":
+        src, tgt = ts[0], family(t[2])
+        ok = {
+            ("float", "int"), ("str", "int"), ("str", "float"), ("int", "str"), ("float", "str"),
+            ("int", "float"), ("int", "int"), ("float", "float"), ("datetime", "date"), ("date", "datetime"),
+            ("datetime", "str"), ("date", "str"), ("bool", "int"), ("bool", "float"),
+        }
+        if src == tgt or src == "null" or (src, tgt) in ok:
+            return tgt
+        _terr(f"cast {src} -> {tgt}")
+    if h.startswith("str_"):
+        if not _conv(ts[0], "str"):
+            _terr(f"{h} of {ts[0]}")
+        return {"str_len": "int", "str_starts_with": "bool", "str_ends_with": "bool", "str_contains": "bool"}.get(h, "str")
+    if h.startswith("dt_"):
+        return "int"
+    raise ValueError(f"typeof: unknown head {h}")
+
+
+# --------------------------------------------------------------------------------------
 # verbs
 
 
@@ -879,15 +1077,17 @@ class Model:
         nrows = len(st.rows)
         newcols = []
         for name, term in e[1]:
+            ty = typeof(term, env)
             vals = _bcast(ev(term, st.rows, env), nrows)
-            newcols.append((name, vals))
+            newcols.append((name, vals, ty))
         n = st.copy()
-        for name, vals in newcols:
+        for name, vals, ty in newcols:
             old = n.name_to_cid(name)
             if old is not None:
                 n.visible.remove(old)  # hidden, still referable by identity
             cid = n.new_cid("m")
             n.cols[cid] = name
+            n.types[cid] = ty
             n.visible.append(cid)
             for r, v in zip(n.rows, vals):
                 r[cid] = v
@@ -898,10 +1098,9 @@ class Model:
         nrows = len(st.rows)
         keep = [True] * nrows
         for term in e[1]:
+            if typeof(term, env) != "bool":
+                raise Reject("DataTypeError", "non-boolean filter")
             vals = _bcast(ev(term, st.rows, env), nrows)
-            for v in vals:
-                if v is not None and not isinstance(v, bool):
-                    raise Reject("DataTypeError", "non-boolean filter")
             keep = [k and (v is True) for k, v in zip(keep, vals)]
         n = st.copy()
         n.rows = [r for r, k in zip(n.rows, keep) if k]
@@ -916,6 +1115,7 @@ class Model:
         keycols = []
         for o in e[1]:
             term, desc, nl = _order_spec(o)
+            typeof(term, env)
             kv = _bcast(ev(term, st.rows, env), nrows)
             if nl is None and any(v is None for v in kv):
                 raise Disabled("null in arrange key without nulls_first/nulls_last")
@@ -949,7 +1149,11 @@ class Model:
             if c not in st.visible:
                 raise Reject("ValueError", "group_by of a hidden column")
         n = st.copy()
-        n.group = (st.group + cids) if (len(e) > 2 and e[2]) else cids
+        base = list(st.group) if (len(e) > 2 and e[2]) else []
+        for c in cids:  # a column is part of the grouping only once
+            if c not in base:
+                base.append(c)
+        n.group = base
         return n
 
     def _v_ungroup(self, st, states, e):
@@ -977,16 +1181,20 @@ class Model:
         keep_group = [c for c in st.group if st.cols[c] not in new_names]
         for c in keep_group:
             n.cols[c] = st.cols[c]
+            n.types[c] = st.types[c]
             n.visible.append(c)
+        # static checks: types; bare non-grouping column outside an aggregate
+        tys = []
+        for _, term in e[1]:
+            tys.append(typeof(term, env))
+            self._check_summarize_term(term, env, st, False)
         new_cids = []
-        for name, _ in e[1]:
+        for (name, _), ty in zip(e[1], tys):
             cid = n.new_cid("s")
             n.cols[cid] = name
+            n.types[cid] = ty
             n.visible.append(cid)
             new_cids.append(cid)
-        # static check: bare non-grouping column outside an aggregate
-        for _, term in e[1]:
-            self._check_summarize_term(term, env, st, False)
         for key, grows in groups.items():
             row = {}
             for c in keep_group:
@@ -1025,6 +1233,7 @@ class Model:
         for k in [k for k, _, _ in st.order_keys]:
             ren[k] = k
         n.cols = {ren[c]: nm for c, nm in st.cols.items()}
+        n.types = {ren[c]: ty for c, ty in st.types.items()}
         n.visible = [ren[c] for c in st.visible]
         n.group = [ren[c] for c in st.group]
         n.rows = [{ren.get(c, c): v for c, v in r.items()} for r in st.rows]
@@ -1102,10 +1311,9 @@ class Model:
             if o[0] == "eqcid":
                 vals = [s_binop("eq", m[o[1]], m[o[2]]) for m in merged_rows]
             else:
+                if typeof(o[1], jenv) != "bool":
+                    raise Reject("DataTypeError", "non-boolean join condition")
                 vals = _bcast(ev(o[1], merged_rows, jenv), len(merged_rows))
-                for v in vals:
-                    if v is not None and not isinstance(v, bool):
-                        raise Reject("DataTypeError", "non-boolean join condition")
             ok = [a and (v is True) for a, v in zip(ok, vals)]
         for (i, j, m), a in zip(allcols_env_rows, ok):
             if a:
@@ -1134,6 +1342,7 @@ class Model:
                 n.cols[c] = nm
         for c, nm in zip(rt.visible, new_right):
             n.cols[c] = nm
+        n.types = {**st.types, **rt.types}
         n.visible = list(st.visible) + list(rt.visible)
         n.rows = [{c: r.get(c) for c in n.cols} for r in pairs]
         n.seq_defined = len(n.rows) <= 1
@@ -1181,13 +1390,13 @@ class Model:
         n.visible = list(st.visible)
         for c in st.visible:
             n.cols[c] = st.cols[c]
+            try:
+                n.types[c] = lca([st.types[c], rt.types[rt.name_to_cid(st.cols[c])]])
+            except Reject:
+                raise Reject("TypeError", "no common type") from None
         rows = [{c: r[c] for c in st.visible} for r in st.rows]
         for r in rt.rows:
             rows.append({c: r[rt.name_to_cid(st.cols[c])] for c in st.visible})
-        for c in st.visible:
-            kinds = {_kind(r[c]) for r in rows if r[c] is not None}
-            if len(kinds) > 1 and kinds != {"num"}:
-                raise Reject("TypeError", "no common type")
         if distinct:
             seen = set()
             out = []
@@ -1246,6 +1455,7 @@ class NamePattern(list):
 def _merge_scope(st, rt):
     m = MState()
     m.cols = {**st.cols, **rt.cols}
+    m.types = {**st.types, **rt.types}
     m.visible = list(st.visible) + list(rt.visible)
     m.group = []
     return m
